@@ -45,6 +45,9 @@ TEXT = {
  "C16": dict(tech="rapid stateful model-based testing of backup / delete / list / restore sequences on a real RaftNode, restored nodes opened in a second child",
    text="Generated sequences of add/backup/delete/list/restore run on a real single-node RaftNode; listing must equal the model, and a fresh node opened on each restored backup must report the backup's version, prove membership/consistency of exactly the first v+1 events against the originally issued snapshots, deny later events, and give v+1 with reference digests to its first accepted insertion. Exploration; one known finding (F-C16-1) is tolerated by exact signature and probed.",
    note="Backups are taken of non-empty logs; restored node uses a fresh raft directory (documented procedure).", ref="§5 C16"),
+ "C11": dict(tech="rapid grammar-based request generation over real TCP against a full server in a child process; liveness + follow-up-correctness oracle incl. restart/log replay",
+   text="Generated request sequences (method x route x body grammar x query parameters) hit the API and management ports of a complete server.Server running in a child; every request must get a well-formed HTTP response, the process must stay alive (also 300 ms later: FSM panics are asynchronous), the next valid insertion must get the next dense version with a verifying proof, and the server must restart on its directories (log replay) and serve again. Exploration.",
+   note="Requests are sent with net/http (well-formed HTTP framing); an empty log's CurrentVersion 2^64-1 is not asserted against.", ref="§5 C11"),
 }
 
 NA = {}
